@@ -77,9 +77,13 @@ FlatUnitBody(u) ==
 
 FlatUnit(u) == FlatUnitBody(u) \o Hard \o FlatInls(u.notes, Ctx0("SPEAKERNOTE")) \o Hard
 
+\* every token of unit k carries the mark "U<k>" (which unit a token belongs to; used by the slide-order deviations)
+UnitMark(k) == "U" \o ToString(k)
+WithUnit(flat, k) == [j \in DOMAIN flat |-> IF flat[j][1] = "t" THEN <<"t", flat[j][2], flat[j][3], flat[j][4] \cup {UnitMark(k)}>>
+                                                              ELSE flat[j]]
 FlatDoc(d) ==
     Hard \o FlatInls(d.header, Ctx0("HDRFTR")) \o Hard
-    \o ConcatAll([k \in DOMAIN d.units |-> FlatUnit(d.units[k])])
+    \o ConcatAll([k \in DOMAIN d.units |-> WithUnit(FlatUnit(d.units[k]), k)])
     \o Hard \o FlatInls(d.footer, Ctx0("HDRFTR")) \o Hard
 
 Tokens(flat) == SelectSeq(flat, LAMBDA a : a[1] = "t")
@@ -115,6 +119,8 @@ DeviationNames ==
       "Rtf!DeletedLeaks",            \* {\deleted ...} groups are not skipped
       "Xlsx!UnnamedHeaderPlaceholder",
       "Odt!TextboxParagraphsGlued",
+      "Odp!TextBoxesAfterBody",      \* slide text = title, then placeholder paragraphs, then free text boxes (not visual order)
+      "Ppt!TextBoxesAfterBody",      \* the same for legacy PPT (PptSlideContent.text_combined)
       "Ppt!RawFallback" }                 \* no slide has text: the raw-text fallback collects every text atom (speaker notes too)      \* paragraphs inside a text box are concatenated without separator   \* empty cells of the first row are rendered as "Unnamed: <col>"
 
 \* does deviation dv apply to token atom a in format fmt?  [min, max] occurrence bounds and leak permission
@@ -137,8 +143,8 @@ MinCount(fmt, a, dev) ==
 MaxCount(fmt, a, dev) ==
     IF Req(fmt, a[3]) = "DONTCARE" THEN 99
     ELSE IF Req(fmt, a[3]) = "MUSTNOT" THEN
-        (IF \E dv \in dev : dv \in {"Odt!TrackedDeletionLeaks", "Rtf!DeletedLeaks", "Ppt!RawFallback"}
-                             /\ InDomain(dv, fmt, a) THEN 99 ELSE 0)
+        (IF \E dv \in dev : dv \in {"Odt!TrackedDeletionLeaks", "Rtf!DeletedLeaks"}
+                             /\ InDomain(dv, fmt, a) THEN 99 ELSE 0)       \* (Ppt!RawFallback: see Fidelity, its domain needs the whole document)
     ELSE IF \E dv \in dev : dv \in {"Docx!NestedTableRepeated", "Odt!NestedRepeated", "Html!NestedTableRepeated"}
                              /\ InDomain(dv, fmt, a) THEN 4
     ELSE 1
@@ -167,6 +173,13 @@ SegOf(flat, fmt, dev) ==
     IN [id \in {flat[k][2] : k \in {j \in 1..n : flat[j][1] = "t"}} |->
             seg[CHOOSE k \in 1..n : flat[k][1] = "t" /\ flat[k][2] = id]]
 
+\* as-built slide order of ODP / legacy PPT: within each unit the title first, then placeholder text, then free text boxes
+BoxesLast(fmt, dev) == (fmt = "odp" /\ "Odp!TextBoxesAfterBody" \in dev) \/ (fmt = "ppt" /\ "Ppt!TextBoxesAfterBody" \in dev)
+UnitIndexOf(a, n) == IF \E k \in 1..n : UnitMark(k) \in a[4] THEN CHOOSE k \in 1..n : UnitMark(k) \in a[4] ELSE 0
+SlideKey(a, n) == 3 * UnitIndexOf(a, n) + (IF a[3] = "HEAD" THEN 0 ELSE IF "tbx" \in a[4] THEN 2 ELSE 1)
+SlideOrder(toks) == LET n == Len(toks) IN
+                    ConcatAll([key \in 1..(3 * n + 3) |-> SelectSeq(toks, LAMBDA a : SlideKey(a, n) = key - 1)])
+
 RECURSIVE FirstOcc(_, _)
 FirstOcc(s, seen) == IF s = <<>> THEN <<>>
                      ELSE IF Head(s) \in seen THEN FirstOcc(Tail(s), seen)
@@ -179,12 +192,15 @@ Fidelity(flat, fmt, obs, sep, residue, dev) ==
         ids    == {toks[k][2] : k \in DOMAIN toks}
         atom(i) == toks[CHOOSE k \in DOMAIN toks : toks[k][2] = i]
         strictIds == {i \in ids : Req(fmt, atom(i)[3]) = "MUST"}
-        order  == SelectSeq([k \in DOMAIN toks |-> toks[k][2]], LAMBDA i : i \in strictIds /\ Count(obs, i) > 0)
+        otoks  == IF BoxesLast(fmt, dev) THEN SlideOrder(toks) ELSE toks
+        order  == SelectSeq([k \in DOMAIN otoks |-> otoks[k][2]], LAMBDA i : i \in strictIds /\ Count(obs, i) > 0)
         seg    == SegOf(flat, fmt, dev)
-    IN /\ ("Ppt!RawFallback" \in dev /\ fmt = "ppt") => strictIds = {}              \* (domain of that deviation)
-       /\ \A k \in DOMAIN obs : obs[k] \in ids                                   \* nothing invented
+        \* Ppt!RawFallback applies only to a deck in which no slide has text: then speaker notes may leak
+        maxc(i) == IF "Ppt!RawFallback" \in dev /\ InDomain("Ppt!RawFallback", fmt, atom(i)) /\ strictIds = {} THEN 99
+                   ELSE MaxCount(fmt, atom(i), dev)
+    IN /\ \A k \in DOMAIN obs : obs[k] \in ids                                   \* nothing invented
        /\ \A i \in ids : /\ Count(obs, i) >= MinCount(fmt, atom(i), dev)          \* nothing lost
-                         /\ Count(obs, i) <= MaxCount(fmt, atom(i), dev)          \* nothing doubled / leaked
+                         /\ Count(obs, i) <= maxc(i)                              \* nothing doubled / leaked
        /\ FirstOcc(SelectSeq(obs, LAMBDA i : i \in strictIds), {}) = order        \* relative order kept
        /\ \A k \in DOMAIN sep :                                                   \* nothing merged
              (sep[k] = 0 /\ obs[k] \in strictIds /\ obs[k + 1] \in strictIds /\ obs[k] # obs[k + 1])
